@@ -3,7 +3,8 @@ MANIFEST = {
     "engine": "symrun",
     "category": "proof",
     "text": "Representation invariant + frame + constructor-equivalence obligations for the real CovModel constructor and every parameter setter, executed symbolically with arbitrary in-bound old state and arbitrary new value (reals unbounded) for all 17 classes x plain/temporal/lat-lon/lat-lon+temporal x dim 1-4; each mutator maps constructor images to constructor images, so all finite setter histories follow by induction. Added after the seeding rounds: the correlation at a probe lag belongs to the 'derived quantities = freshly built model' view (read before every operation); list-form integral scales redefine the anisotropy like list-form length scales (setter and constructor). Also: several bounds set at once end with every parameter inside its bounds in any keyword order."
-            " Round 7: NaN is outside every bound (F38 repaired); a single length scale wrapped in a list, tuple or array keeps the anisotropy.",
+            " Round 7: NaN is outside every bound (F38 repaired); a single length scale wrapped in a list, tuple or array keeps the anisotropy."
+            " Composite setters are transactional (integral_scale, dim: F43, F44 repaired); bounds are owned by the model (F40 repaired); open finding F41 (bounds property setters do not look at the current value).",
     "level_note": "floats as reals (T1); object-dtype numpy (T2); optional-argument bounds are taken from the class's own declaration for the current dimension (their agreement with the literature is C02); hankel/SFT object and integral-scale cache excluded from the view; integral_scale setter only for classes with closed-form integral scale.",
     "technique": "contract-based deductive verification: class invariant + per-method pre/postconditions on the real CovModel methods, symbolic execution, VCs discharged by z3/cvc5",
 }
